@@ -83,6 +83,36 @@ def run(ctx):
             ctx.violation('central difference is not grad + h^2 * cubic coefficient (second order)', 'got %s expected %s' % (g1.tolist(), want.tolist()), c)
         ctx.traces += 1
     ctx.sample({'kind': 'S->C gradient case', **rg.cases[3]})
+    # the same expectations on arrays of points with two leading axes (square and rectangular grids of DIFFERENT points)
+    groups = {}
+    for c in rg.cases:
+        groups.setdefault((json.dumps(c['poly']), c['k']), []).append(c)
+    for (pj, k), cs in groups.items():
+        if len(cs) < 4:
+            continue
+        cs = cs[:4]
+        mon = json.loads(pj)
+
+        def f(X, mon=mon):
+            X = np.asarray(X, dtype=float)
+            out = 0.0
+            for m in mon:
+                out = out + m['c'] * X[..., 0] ** m['e'][0] * X[..., 1] ** m['e'][1] * X[..., 2] ** m['e'][2]
+            return out
+        pts = np.array([c['x'] for c in cs], dtype=float)
+        want = np.array([[fr(q) for q in c['cd']] for c in cs])
+        for shp in ((2, 2), (1, 4), (4, 1)):
+            ctx.count()
+            try:
+                g = central_difference(f, pts.reshape(shp + (3,)), shift=2.0 ** -k)
+            except Exception as e:
+                ctx.violation('central_difference raised %s on a grid of points' % excname(e), repr(e)[:200])
+                continue
+            if np.shape(g) != shp + (3,):
+                ctx.violation('central difference changes the leading shape of a grid of points', '%s -> %s' % (shp + (3,), np.shape(g)))
+            elif not np.allclose(g, want.reshape(shp + (3,)), rtol=1e-9, atol=1e-9):
+                ctx.violation('central difference mixes up the points of a grid with two leading axes', 'shape %s' % (shp + (3,),))
+            ctx.nontriv(('gradgrid', pj, k, shp))
     # ---- C->S: higher-dimensional steps -------------------------------------------------------------------------------
     rng = np.random.default_rng(ctx.seed)
     recs = []
@@ -130,11 +160,14 @@ def run(ctx):
             e0, e1 = [], []
             cur = path
             for blk in range(6):
-                cur = cur.relax(relaxsteps=300, climbsteps=0, timestep=0.01 if ri % 3 else 0.02, verbose=False)
+                cur = cur.relax(relaxsteps=40 if blk < 3 else 300, climbsteps=0, timestep=0.01 if ri % 3 else 0.02, verbose=False)
                 en = cur.energy()
                 e0.append(int(round(en[0] * S)))
                 e1.append(int(round(en[-1] * S)))
-            fin = cur.relax(relaxsteps=0, climbsteps=1500, timestep=0.01, verbose=False)
+            if ri % 2:
+                fin = cur.relax(relaxsteps=0, climbsteps=1500, timestep=0.01, verbose=False)
+            else:   # relaxation and climbing requested in ONE call; the relaxation phase ends by reaching its tolerance
+                fin = cur.relax(relaxsteps=2000, climbsteps=1500, timestep=0.01, verbose=False)
             en = fin.energy()
             it = int(np.argmax(en))
             g = fin.grad_energy(fin.coord[it:it + 1])[0] if hasattr(fin, 'grad_energy') else np.zeros(2)
